@@ -1143,6 +1143,30 @@ def global_aliases(tree):
     return n
 
 
+# ------------------------------------------------------------------ P17 a, b = x, y with independent sides is a = x; b = y
+def split_tuple_assignments(tree):
+    n = 0
+    for owner in ast.walk(tree):
+        for _nm, blk in _blocks(owner):
+            i = 0
+            while i < len(blk):
+                st = blk[i]
+                if isinstance(st, ast.Assign) and len(st.targets) == 1 and isinstance(st.targets[0], ast.Tuple) and isinstance(st.value, ast.Tuple) \
+                        and len(st.targets[0].elts) == len(st.value.elts) and all(isinstance(t, ast.Name) for t in st.targets[0].elts) \
+                        and not any(isinstance(v, ast.Starred) for v in st.value.elts):
+                    tnames = {t.id for t in st.targets[0].elts}
+                    used = {x.id for v in st.value.elts for x in ast.walk(v) if isinstance(x, ast.Name)}
+                    pure = not any(isinstance(x, (ast.Call, ast.Await, ast.Yield, ast.NamedExpr)) for v in st.value.elts for x in ast.walk(v))
+                    if not (tnames & used) and len(tnames) == len(st.targets[0].elts) and pure:
+                        new = [ast.copy_location(ast.Assign(targets=[t], value=v), st) for t, v in zip(st.targets[0].elts, st.value.elts)]
+                        blk[i:i + 1] = new
+                        n += 1
+                        i += len(new)
+                        continue
+                i += 1
+    return n
+
+
 # ------------------------------------------------------------------ P13 a record class that did not exist then is the dict it replaced
 def records_to_dicts(tree, new_names):
     """P13.  `class C(NamedTuple)` with plain fields, new since the baseline, whose instances are only built (C(...), x._replace(...)),
@@ -1598,6 +1622,7 @@ def normalise_source(src, rel, baseline, cf=None, lookups=True, renames=None, fo
     if new_consts:
         changed += subst_new_constants(tree, {c for c in new_consts if '.' not in c})
     before = ast.dump(tree)
+    split_tuple_assignments(tree)
     global_aliases(tree)
     _GetattrConst().visit(tree)
     bound_method_temporaries(tree)
